@@ -14,6 +14,7 @@ from exabgp.bgp.message.notification import Notify
 from exabgp.bgp.message.update.nlri.evpn.nlri import EVPN
 from exabgp.bgp.message.update.nlri.qualifier import ESI, EthernetTag, Labels, RouteDistinguisher
 from exabgp.bgp.message.update.nlri.qualifier.path import PathInfo
+from exabgp.protocol.family import Family
 from exabgp.util.types import Buffer
 
 # +---------------------------------------+
@@ -94,14 +95,22 @@ class EthernetAD(EVPN):
         """MPLS Labels - unpacked from wire bytes (variable length)."""
         return Labels.unpack_labels(self._packed[24:])
 
+    def index(self) -> bytes:
+        # RFC 7432 7.1: the route key of a type 1 route is the RD, the Ethernet Segment
+        # Identifier and the Ethernet tag; the label is what the route carries. The index was
+        # the whole NLRI, label included, while __eq__ left the ESI out as well: two equal routes
+        # had two places in the RIB and a withdraw with another label left the announce behind.
+        return bytes(Family.index(self)) + bytes(self._packed[0:1]) + bytes(self._packed[2:24])
+
     def __eq__(self, other: object) -> bool:
         return (
             isinstance(other, EthernetAD)
             and self.CODE == other.CODE
             and self.rd == other.rd
+            and self.esi == other.esi
             and self.etag == other.etag
         )
-        # esi and label must not be part of the comparaison
+        # the label must not be part of the comparaison (RFC 7432 7.1); the ESI is part of the key
 
     def __ne__(self, other: object) -> bool:
         return not self.__eq__(other)
